@@ -34,7 +34,8 @@ def skip_decision(ctx):
              'comparison of both the found and the extra list of every '
              'cached filter with a fresh walk, and is taken only for lazy '
              'regenerations; a regeneration reloads the saved variables '
-             'before the toolchain file is replayed')
+             'before the toolchain file is replayed; skipping requires that no '
+             'input is newer than the oldest output')
     F = _facts(ctx)
     f = F.fn('bfg9000.builtins.find:find_check_cache')
     raises = [n for n in walk_no_nested(f.node) if isinstance(n, ast.Raise)]
